@@ -80,6 +80,7 @@ type World struct {
 	notifyDropped bool
 	TeardownWait  time.Duration // how long a step waits for the end of a teardown (longer when the scheduler stalls it)
 	connBefore    string
+	ReportCopies  int    // BESS: a report is written this many times back to back on the notify socket (0, 1: once)
 	ConnTruth     string // "down": the harness itself stopped the datapath server a while ago; Assoc records that instead of the agent's own view
 	DdnMs         int           // notification interval set through the hook (0 = the code's 20 s)
 	t0            time.Time     // start of the world (time stamps of report events)
